@@ -64,8 +64,95 @@ func genBlocks(r *simcore.Rand, n int, sp *StatePlan) []BlockPlan {
 
 var capChoices = []int{150, 400, 1200, 4000, 16000, 1 << 20}
 
+// genSplitStorage builds the plan class "pivot moves while a split contract is
+// partly downloaded": a contract whose storage the syncer splits into chunks
+// (all first keys are tiny, every peer answers with a few slots only), at least
+// two peers of different speed so that later chunks advance while earlier ones
+// are pending, pivot moves / restart-moves placed inside the storage download,
+// and blocks whose transactions rewrite and clear existing slots all over that
+// contract (so the access lists of the moved-over blocks touch every chunk).
+func genSplitStorage(r *simcore.Rand, p *Plan) {
+	p.StoConc = []int{2, 4, 16}[r.Pick(1, 2, 3)]
+	p.AccConc = []int{1, 2, 4}[r.Intn(3)]
+	sp := StatePlan{Seed: r.Uint64(), Plain: r.Range(3, 25), Small: r.Range(1, 12), SmallMax: r.Range(1, 3), Skew: true,
+		CodePool: r.Range(1, 3), Unique: 30, NoStore: r.Range(0, 2)}
+	sp.Large = []int{r.Range(60, 220)}
+	if r.Bool(0.3) {
+		sp.Large = append(sp.Large, r.Range(40, 120))
+	}
+	p.State = sp
+	nb := r.Range(3, 9)
+	for i := 0; i < nb; i++ {
+		var b BlockPlan
+		for j := r.Range(3, 9); j > 0; j-- {
+			tp := TxPlan{K: 0, A: uint32(r.Intn(len(sp.Large))), B: uint32(r.Uint64())}
+			if tp.B%3 == 0 && r.Bool(0.8) {
+				tp.B++ // mostly existing slots
+			}
+			if r.Bool(0.35) {
+				tp.V = 0
+			} else {
+				tp.V = r.Uint64() | 1
+			}
+			if r.Bool(0.1) {
+				tp = TxPlan{K: 1, A: uint32(r.Intn(nSenders)), B: uint32(r.Uint64()), V: r.Uint64()}
+			}
+			b.Txs = append(b.Txs, tp)
+		}
+		p.Blocks = append(p.Blocks, b)
+	}
+	p.Pivot0 = r.Intn(2)
+	np := r.Range(2, 4)
+	for i := 0; i < np; i++ {
+		pp := PeerPlan{Cap: []int{150, 250, 400}[r.Intn(3)]}
+		if i == 0 || r.Bool(0.3) {
+			pp.LatMin = r.Range(300, 900) // a slow peer keeps its chunk pending
+		} else {
+			pp.LatMin = r.Range(5, 80)
+		}
+		pp.LatMax = pp.LatMin + r.Range(0, 100)
+		pp.W[aDeliver] = r.Range(60, 100)
+		if r.Bool(0.4) {
+			for a := aDrop; a < nActions; a++ {
+				if r.Bool(0.3) {
+					pp.W[a] = r.Range(1, 6)
+				}
+			}
+		}
+		p.Peers = append(p.Peers, pp)
+	}
+	est := estimateRequests(p)
+	nmoves := r.Range(1, 3)
+	var ats []int
+	for i := 0; i < nmoves; i++ {
+		ats = append(ats, est/8+r.Intn(est*3/4+1))
+	}
+	sort.Ints(ats)
+	for _, at := range ats {
+		op := Op{After: at, K: "move", N: r.Range(1, 3)}
+		if r.Bool(0.3) {
+			op.K = "restart-move"
+		}
+		p.Ops = append(p.Ops, op)
+	}
+	p.FaultStop = r.Range(est/4+5, 2*est+40)
+	p.Concurrent = r.Pick(3, 2, 1) + 1
+	p.Tape = r.Tape(300)
+}
+
 func GenC47(r *simcore.Rand, tier string) any {
 	p := &Plan{Ver: 1 + r.Intn(2), Salt: r.Uint64()}
+	if r.Bool(0.25) {
+		// the split-storage class, mostly for the snap/2 syncer (access-list catch-up on partly fetched chunks)
+		if r.Bool(0.75) {
+			p.Ver = 2
+		}
+		schemes := []string{rawdb.HashScheme, rawdb.PathScheme}
+		p.SchemeA = schemes[r.Intn(2)]
+		p.SchemeB = schemes[r.Intn(2)]
+		genSplitStorage(r, p)
+		return p
+	}
 	schemes := []string{rawdb.HashScheme, rawdb.PathScheme}
 	p.SchemeA = schemes[r.Intn(2)]
 	p.SchemeB = schemes[r.Intn(2)]
